@@ -36,7 +36,7 @@ try:
 except (DeclarationError, SubstitutionError):
     raise IgnoreAttempt("declaration / substitution rejected")
 assume({sat})
-with gen_env({ints}, {chars}, {floats}, small=True) as t:
+with gen_env({ints}, {chars}, {floats}, small={small}{extra_env}) as t:
     v = fake(S)
 res = validate(S, v)
 return (not res.has_errors()), draw_tag(t)
@@ -48,7 +48,8 @@ FUNCS = ("generation/_generator.py:Generator.visit_*", "generation/_random.py:Ra
 
 
 def g(name, params, spec, chars=False, floats=False, build="build(spec)", sat="satisfiable(spec)", pre=(),
-      covers=("allhigh", "alllow"), timeout=60, kf=None, tier="quick", ints="(d0, d1, d2, d3, d4, d5, d6, d7)"):
+      covers=("allhigh", "alllow"), timeout=60, kf=None, tier="quick", ints="(d0, d1, d2, d3, d4, d5, d6, d7)", small=True,
+      extra_env=""):
     ps = [p for p in [params, DRAWS, CHARS if chars else "", FLOATS if floats else ""] if p]
     pre = list(pre)
     if chars:
@@ -56,7 +57,7 @@ def g(name, params, spec, chars=False, floats=False, build="build(spec)", sat="s
     if floats:
         pre += ["u0 == u0 and u1 == u1"]
     return dict(name=name, params=", ".join(ps), spec=spec, build=build, sat=sat, pre=pre, covers=covers,
-                timeout=timeout, kf=kf or {}, tier=tier, ints=ints,
+                timeout=timeout, kf=kf or {}, tier=tier, ints=ints, small=small, extra_env=extra_env,
                 chars="(c0, c1, c2, c3)" if chars else "()", floats="(u0, u1)" if floats else "()")
 
 
@@ -148,6 +149,15 @@ def entries():
     L.append(g("nest", "a: int, p: int", '("dict", [("r", False, ("list_t", ("dict", [("id", False, %s), ("t", True, ("none",))], False), (Nil, p, Nil)))], True)' % INT_A,
                pre=["p <= 3"]))
     L.append(g("nest.any.list", "a: int, b: int", '("list_t", ("any", [("int", Nil, a, Nil), ("list_t", ("int", Nil, Nil, b), (Nil, Nil, 1))]), (Nil, Nil, 2))'))
+    # ---- thorough tier: the REAL default caps (STR_LEN_MAX=32, LIST_LEN_MAX=16, BYTES_LEN_MAX=32); every character
+    # choice is concretised to the first member of the alphabet so that only the length arithmetic is symbolic
+    REAL = dict(small=False, extra_env=", first_char=True", tier="thorough", timeout=300)
+    L.append(g("real.str.plain", "", '("str", Nil, NOLEN, Nil, Nil, Nil)', covers=("allhigh", "alllow"), **REAL))
+    L.append(g("real.str.minlen", "n: int", '("str", Nil, (Nil, n, Nil), Nil, Nil, Nil)', pre=["n <= 40"], **REAL))
+    L.append(g("real.str.contains", "sub: str, n: int", '("str", Nil, (Nil, Nil, n), Nil, sub, Nil)', pre=["len(sub) <= 2", "n <= 6"], **REAL))
+    L.append(g("real.bytes", "", '("bytes", Nil)', **REAL))
+    L.append(g("real.list.untyped.min", "p: int", '("list", None, (Nil, p, Nil))', pre=["p <= 20"], **REAL))
+    L.append(g("real.list.typed.bool", "q: int", '("list_t", ("bool", Nil), (Nil, Nil, q))', pre=["q <= 5"], covers=("mixed",), **REAL))
     # ---- combinators and substitution results (schema built by expression; satisfiable by construction)
     L.append(g("dict.add", "a: int, b: int, rel: bool", 'None',
                build='build(("dict", [("a", False, ("int", Nil, a, Nil)), ("x", True, ("none",))], rel)) + build(("dict", [("a", False, ("int", Nil, Nil, b)), ("y", False, ("bool", Nil))], False))',
@@ -173,7 +183,7 @@ def harnesses(tier, seed, active_kf=()):
         if e["tier"] == "thorough" and tier != "thorough":
             continue
         body = BODY.format(spec=e["spec"], build=e["build"], sat=e["sat"], chars=e["chars"], floats=e["floats"],
-                           ints=e["ints"])
+                           ints=e["ints"], small=e["small"], extra_env=e["extra_env"])
         out.append(mk("C01." + e["name"], e["params"], body, covers=e["covers"], pre=e["pre"], timeout=e["timeout"],
                       functions=FUNCS, bounds=BOUNDS, kf=e["kf"], active_kf=active_kf))
     return out
